@@ -219,6 +219,23 @@ class Run:
         finally:
             logging.disable(logging.NOTSET)
 
+    def pylite_fuzz(self, funcs=120, inputs=5):
+        """random programs of the subset under CPython and under the extracted interpreter"""
+        work = "/var/tmp/pylite-fuzz-%s-%d" % (self.prop, os.getpid())
+        p = subprocess.run(["timeout", "1500", "/venv/bin/python", os.path.join(TOOLS, "pylite_fuzz.py"),
+                            "--seed", str(self.seed & 0xFFFFFF), "--funcs", str(funcs), "--inputs", str(inputs),
+                            "--work", work], capture_output=True, text=True)
+        line = [x for x in p.stdout.split("\n") if x.startswith("pylite-fuzz")]
+        self.notes.append(line[0] if line else "pylite-fuzz: no summary (rc=%s)" % p.returncode)
+        m = re.search(r"runs=(\d+) disagreements=(\d+)", p.stdout)
+        if m:
+            self.dist["pylite-fuzz-runs"] = int(m.group(1))
+            self.evaluations += int(m.group(1))
+        if p.returncode != 0:
+            self.violation("random programs: CPython and the PyLite interpreter disagree (or the run failed)",
+                           {"output": (p.stdout + p.stderr)[-3000:], "kind": "pylite-fuzz"}, nofail=True)
+        subprocess.run(["rm", "-rf", work])
+
     def _model_targets(self):
         out = []
         with open(os.path.join(COQ, "_CoqProject")) as f:
